@@ -6,9 +6,9 @@ the C05 theorems (`roa_delta_iff`: the "invalid max length" class) are about.
 
 | Rust (`RoaPayload`) | generated | model |
 |---|---|---|
-| `effective_max_length` | `KM.Gen.RoaPayload.effective_max_length` | `Roa.effMax` |
-| `max_length_valid` | `KM.Gen.RoaPayload.max_length_valid` | `Input.maxLengthValid` |
-| `nr_of_specific_prefixes` | `KM.Gen.RoaPayload.nr_of_specific_prefixes` | `Input.nrOfSpecificPrefixes` (never `none`: no panic) |
+| `effective_max_length` | `KM.Gen.C16.RoaPayload.effective_max_length` | `Roa.effMax` |
+| `max_length_valid` | `KM.Gen.C16.RoaPayload.max_length_valid` | `Input.maxLengthValid` |
+| `nr_of_specific_prefixes` | `KM.Gen.C16.RoaPayload.nr_of_specific_prefixes` | `Input.nrOfSpecificPrefixes` (never `none`: no panic) |
 
 An edit of one of the three bodies – `>=` to `>`, 32 and 128 swapped, the family ignored, the
 saturating subtraction replaced by a plain one (then the translator refuses the unsigned `-`), the
@@ -22,7 +22,7 @@ namespace KM.Props.C16SrcFns
 open KM.Bgp KM.Input
 
 /-- `TypedPrefix::V4/V6` of the payload's prefix. -/
-def kindOf : Family → KM.Gen.TypedPrefix
+def kindOf : Family → KM.Gen.C16.TypedPrefix
   | .v4 => .V4
   | .v6 => .V6
 
@@ -30,20 +30,20 @@ def kindOf : Family → KM.Gen.TypedPrefix
 def shlSat (n : Nat) : Nat := (checkedShl 128 1 n).getD (2 ^ 128 - 1)
 
 theorem gen_effective_max_length_eq_model (r : Roa) :
-    KM.Gen.RoaPayload.effective_max_length r.maxLen r.pfx.len = r.effMax := by
-  unfold KM.Gen.RoaPayload.effective_max_length Roa.effMax
+    KM.Gen.C16.RoaPayload.effective_max_length r.maxLen r.pfx.len = r.effMax := by
+  unfold KM.Gen.C16.RoaPayload.effective_max_length Roa.effMax
   cases r.maxLen <;> rfl
 
 theorem gen_max_length_valid_eq_model (r : Roa) :
-    KM.Gen.RoaPayload.max_length_valid r.maxLen (kindOf r.pfx.fam) r.pfx.len = maxLengthValid r := by
-  unfold KM.Gen.RoaPayload.max_length_valid maxLengthValid
+    KM.Gen.C16.RoaPayload.max_length_valid r.maxLen (kindOf r.pfx.fam) r.pfx.len = maxLengthValid r := by
+  unfold KM.Gen.C16.RoaPayload.max_length_valid maxLengthValid
   cases r.maxLen with
   | none => rfl
   | some m => cases hf : r.pfx.fam <;> simp [kindOf, Family.bits] <;> rfl
 
 theorem gen_nr_of_specific_prefixes_eq_model (r : Roa) :
-    some (KM.Gen.RoaPayload.nr_of_specific_prefixes shlSat r.pfx.len
-      (KM.Gen.RoaPayload.effective_max_length r.maxLen r.pfx.len)) = nrOfSpecificPrefixes r := by
+    some (KM.Gen.C16.RoaPayload.nr_of_specific_prefixes shlSat r.pfx.len
+      (KM.Gen.C16.RoaPayload.effective_max_length r.maxLen r.pfx.len)) = nrOfSpecificPrefixes r := by
   rw [gen_effective_max_length_eq_model]
   rfl
 
@@ -61,13 +61,13 @@ theorem shlSat_exact (n : Nat) (h : n < 128) : shlSat n = 2 ^ n := by
   exact Nat.mod_eq_of_lt (Nat.pow_lt_pow_right (by omega) h)
 
 /-! non-vacuity: the three bodies on the boundary payloads -/
-example : KM.Gen.RoaPayload.max_length_valid (some 24) .V4 24 = true := by decide
-example : KM.Gen.RoaPayload.max_length_valid (some 23) .V4 24 = false := by decide
-example : KM.Gen.RoaPayload.max_length_valid (some 33) .V4 24 = false := by decide
-example : KM.Gen.RoaPayload.max_length_valid (some 33) .V6 24 = true := by decide
-example : KM.Gen.RoaPayload.max_length_valid (some 129) .V6 24 = false := by decide
-example : KM.Gen.RoaPayload.nr_of_specific_prefixes shlSat 0 128 = 2 ^ 128 - 1 := by decide
-example : KM.Gen.RoaPayload.nr_of_specific_prefixes shlSat 24 20 = 1 := by decide
-example : KM.Gen.RoaPayload.nr_of_specific_prefixes shlSat 8 11 = 8 := by decide
+example : KM.Gen.C16.RoaPayload.max_length_valid (some 24) .V4 24 = true := by decide
+example : KM.Gen.C16.RoaPayload.max_length_valid (some 23) .V4 24 = false := by decide
+example : KM.Gen.C16.RoaPayload.max_length_valid (some 33) .V4 24 = false := by decide
+example : KM.Gen.C16.RoaPayload.max_length_valid (some 33) .V6 24 = true := by decide
+example : KM.Gen.C16.RoaPayload.max_length_valid (some 129) .V6 24 = false := by decide
+example : KM.Gen.C16.RoaPayload.nr_of_specific_prefixes shlSat 0 128 = 2 ^ 128 - 1 := by decide
+example : KM.Gen.C16.RoaPayload.nr_of_specific_prefixes shlSat 24 20 = 1 := by decide
+example : KM.Gen.C16.RoaPayload.nr_of_specific_prefixes shlSat 8 11 = 8 := by decide
 
 end KM.Props.C16SrcFns
